@@ -14,7 +14,7 @@ ID = "C14"
 LEVEL = "exploration"
 RULE = ("Histories of up to 4 prior operations drawn from {construct (optionally sharing page / title / subline / footnote "
         "/ source / page header / page footer / body / column-header OBJECTS with an earlier document), encode, encode expecting ValueError, "
-        "encode twice, change a nested setting (rtf_page.nrow) of a live document in place} over a pool of 14 document archetypes (plain, coloured, multi-section with/without "
+        "encode twice, change a nested setting (rtf_page.nrow) of a live document in place, re-write a figure file at the same path} over a pool of 14 document archetypes (plain, coloured, multi-section with/without "
         "footnote, figure, grouped, grouped non-contiguous, paginated page_by, subline_by, 2- and 3-column tables "
         "that can share components), followed by encoding every live document. Exhaustive: all histories of "
         "length <=2 over archetype x sharing menu; generated: Hypothesis op-sequence strategy (indices are "
@@ -97,9 +97,16 @@ ARCH = [
      "title": {"text": ["@T0"]}, "subline": {"text": ["@U0"]}, "page_header": {"text": ["@P0"], "text_indent_reference": "table"}},
     {"kind": "table", "page": {"col_width": 4.0}, "sections": [{"df": _t(3, 3, "n"), "body": {}, "headers": "default"}],
      "subline": {"text": ["@U0", "@U1"]}, "page_footer": {"text": ["@Q0"], "text_indent_reference": "table"}},
+    # 23: table-rendered footnote and source on EVERY page of a three-page table whose page-boundary border is '' while the
+    #     document closes with 'thick': the per-page border of the component differs from page to page
+    {"kind": "table", "page": {"nrow": 5, "page_footnote": "all", "page_source": "all", "border_last": "thick"},
+     "sections": [{"df": _t(2, 7, "e"), "body": {"border_last": ""}, "headers": [{"text": ["@H0.0", "@H0.1"]}]}],
+     "footnote": {"text": ["@F0"], "as_table": True}, "source": {"text": ["@S0"], "as_table": True}},
 ]
+_PNG2 = (b"\x89PNG\r\n\x1a\n" + (13).to_bytes(4, "big") + b"IHDR" + (12).to_bytes(4, "big") + (5).to_bytes(4, "big")
+         + b"\x08\x02\x00\x00\x00" + bytes(8) + b"SECOND VERSION OF THE PLOT").hex()
 RAISES = {6}
-PLAIN_BODY = {0, 9, 12, 10, 15, 20, 21, 22}         # single tables whose body/header specs reference no columns
+PLAIN_BODY = {0, 9, 12, 10, 15, 20, 21, 22, 23}         # single tables whose body/header specs reference no columns
 SHARE_SETS = [["page"], ["body"], ["footnote"], ["title"], ["header"], ["page", "footnote", "source", "title"], ["body", "header"],
               ["subline"], ["subline", "page_header", "page_footer"]]
 COMPONENT_ARG = {"page": "rtf_page", "title": "rtf_title", "footnote": "rtf_footnote", "source": "rtf_source",
@@ -215,6 +222,17 @@ def check(case) -> Result:
                     flags.add("shared")
                 if rec["kind"] in ("multi", "figure"):
                     flags.add("multi/figure")
+            elif op["op"] == "rewrite_figure" and pool:
+                # the user re-renders a plot to the SAME path (other bytes): the file is read at encode time, so the
+                # document's value changes with it
+                lv = pool[op["doc"] % len(pool)]
+                if lv.rec["kind"] == "figure" and lv.built.files:
+                    with open(lv.built.files[0], "wb") as fh:
+                        fh.write(bytes.fromhex(_PNG2))
+                    lv.rec = copy.deepcopy(lv.rec)
+                    lv.rec["figure"]["files"][0]["hex"] = _PNG2
+                    lv.results = []
+                    flags.add("figure_file_rewritten")
             elif op["op"] == "set_nrow" and pool:
                 # the user changes a nested setting of a live document in place; "equal-valued" now means the new value
                 lv = pool[op["doc"] % len(pool)]
@@ -317,7 +335,10 @@ def _history(draw):
     n = draw(st.integers(1, 4))
     hist = [_construct(draw(st.integers(0, len(ARCH) - 1)))]
     for _ in range(n):
-        kind = draw(st.sampled_from(["construct", "construct", "encode", "encode", "encode_twice", "set_nrow"]))
+        kind = draw(st.sampled_from(["construct", "construct", "encode", "encode", "encode_twice", "set_nrow", "rewrite_figure"]))
+        if kind == "rewrite_figure":
+            hist.append({"op": "rewrite_figure", "doc": draw(st.integers(0, 5))})
+            continue
         if kind == "set_nrow":
             hist.append({"op": "set_nrow", "doc": draw(st.integers(0, 5)), "nrow": draw(st.sampled_from([3, 5, 7, 40]))})
             continue
@@ -348,6 +369,10 @@ def enumerate_cases(tier):
     for a in archs:
         yield {"history": [_construct(a)]}
         yield {"history": [_construct(a), {"op": "encode_twice", "doc": 0}]}
+    for a in archs:      # a figure file re-written at the same path between two encodes
+        if ARCH[a]["kind"] == "figure":
+            yield {"history": [_construct(a), {"op": "encode", "doc": 0}, {"op": "rewrite_figure", "doc": 0}]}
+            yield {"history": [_construct(a), {"op": "encode", "doc": 0}, {"op": "rewrite_figure", "doc": 0}, {"op": "encode", "doc": 0}, _construct(0)]}
     for a in archs:      # encode, change a nested setting in place, encode again
         if ARCH[a]["kind"] != "figure":
             yield {"history": [_construct(a), {"op": "encode", "doc": 0}, {"op": "set_nrow", "doc": 0, "nrow": 3}]}
